@@ -13,6 +13,7 @@ EXPLANATION = (
     'comparison; the range is private and Reservation is neither Clone nor Copy; (3) the growable target zeroes exactly the reserved bytes '
     'before set_len; (4) every unsafe operation is dominated by the matching capacity check with the same symbolic size (shared with C11.2). '
     'Decides these clauses on all paths, not the equivalence with an append-only log over operation histories.')
+WITNESSES = ['ReservationCannotBeForgedOrCopied']     # thorough tier: engines/witness (T12)
 ASSUMPTIONS = ['rustc type checking and MIR construction', 'core/alloc functions (get_mut, try_reserve, spare_capacity_mut, set_len) behave as documented',
                'a reservation is only used with the target that issued it']
 THOROUGH_CONFIGS = ['codec-alloc', 'release']
